@@ -21,6 +21,10 @@ pub fn probe_reset(fault_at: Option<u32>) {
     NEXT_FAULT_AT.with(|c| c.set(fault_at));
     POLLED_AFTER_NONE.with(|c| c.set(0));
 }
+/// faults are injected only while the threads run
+pub fn disarm_faults() {
+    NEXT_FAULT_AT.with(|c| c.set(None));
+}
 pub fn next_calls() -> u32 {
     NEXT_CALLS.with(|c| c.get())
 }
